@@ -863,3 +863,138 @@ def r23_ghost_token_calls(text, fired, callees, arg):
     if hits:
         fired.append('R23 ghost argument %s appended to %d call(s): %s' % (arg, len(hits), ', '.join(sorted(set(m.group(1) for m in hits)))))
     return text
+
+
+# ----------------------------------------------------------------------------------------------
+# R23 (path form), R31, R32: opt-in, used by unit ptlookup (C08)
+
+def r23_ghost_token_path_calls(text, fired, callees, arg):
+    """R23, body part for associated-function calls: every call `Path::NAME(ARGS)` with NAME in `callees`
+    (`ghost_token['path_callees']`) gets the ghost argument appended, exactly as r23_ghost_token_calls does for `.NAME(ARGS)`."""
+    msk = mask(text)
+    hits = list(re.finditer(r'::\s*(%s)\s*\(' % '|'.join(re.escape(c) for c in callees), msk))
+    for m in reversed(hits):
+        ob = m.end() - 1
+        cb = match_close(msk, ob)
+        j = cb
+        while msk[j - 1] in ' \t\n':
+            j -= 1
+        sep = '' if j - 1 == ob else (' ' if msk[j - 1] == ',' else ', ')
+        text = text[:j] + sep + arg + text[j:]
+    if hits:
+        fired.append('R23 ghost argument %s appended to %d path call(s): %s' % (arg, len(hits), ', '.join(sorted(set(m.group(1) for m in hits)))))
+    return text
+
+
+def _call_receiver_start(msk, dot):
+    """`dot` is the index of the `.` of a method call whose receiver is a call expression `PATH(ARGS)` (possibly followed by
+    white space); return the index where PATH starts."""
+    k = dot - 1
+    while k >= 0 and msk[k] in ' \t\n':
+        k -= 1
+    if k < 0 or msk[k] != ')':
+        raise ExtractError('receiver of the method call is not a call expression: %r' % norm_ws(msk[max(0, dot - 40):dot + 20]))
+    d = 0
+    while k >= 0:
+        if msk[k] == ')':
+            d += 1
+        elif msk[k] == '(':
+            d -= 1
+            if d == 0:
+                break
+        k -= 1
+    if k < 0:
+        raise ExtractError('unbalanced receiver')
+    j = k
+    while j > 0 and (msk[j - 1].isalnum() or msk[j - 1] in '_:.'):
+        j -= 1
+    if j == k:
+        raise ExtractError('receiver call has no callee path')
+    return j
+
+
+def r31_result_inspect(text, fired):
+    """R31: `RECV.inspect(|&X| BLOCK)`  ->  `{ let insp_N = RECV; if let Ok(insp_N_ref) = &insp_N { let X = *insp_N_ref; BLOCK } insp_N }`
+
+    Definition of `Result::inspect` (std: "Calls a function with a reference to the contained value if Ok.  Returns the original
+    result."); `|&X|` destructures the `&T` the closure receives (T: Copy).  RECV must be a call expression `PATH(ARGS)`; it is
+    evaluated once, before the block, as in the original.  The closure's block becomes a plain block in the enclosing function, so
+    what it captured (by reference) it now simply names.  Nothing is dropped.  A receiver that is not a `Result` does not type-check
+    after the rewrite (`if let Ok(..)`), so the rule cannot silently change an `Option::inspect` / `Iterator::inspect`.
+    Any other shape of `.inspect(` raises ExtractError (exit 2)."""
+    n = 0
+    while True:
+        msk = mask(text)
+        m0 = re.search(r'\.\s*inspect\s*\(', msk)
+        if not m0:
+            break
+        m = re.match(r'\.\s*inspect\s*\(\s*\|\s*&\s*(\w+)\s*\|\s*\{', msk[m0.start():])
+        if not m:
+            raise ExtractError('R31: unsupported shape of .inspect(..): %r' % norm_ws(text[m0.start():m0.start() + 60]))
+        n += 1
+        ob = m0.start() + m.end() - 1
+        cb = match_close(msk, ob)
+        tail = re.match(r'\s*\)', msk[cb + 1:])
+        if not tail:
+            raise ExtractError('R31: closure block is not the whole argument of .inspect(..)')
+        e = cb + 1 + tail.end()
+        rs = _call_receiver_start(msk, m0.start())
+        recv = text[rs:m0.start()].rstrip()
+        v = 'insp_%d' % n
+        new = '{ let %s = %s; if let Ok(%s_ref) = &%s { let %s = *%s_ref; %s } %s }' % (v, recv, v, v, m.group(1), v, text[ob:cb + 1], v)
+        fired.append('R31 %s.inspect(|&%s| {..}) -> let + if let Ok + the original result' % (norm_ws(recv)[:40], m.group(1)))
+        text = text[:rs] + _pad(new, text[rs:e]) + text[e:]
+    return text
+
+
+def r32_unwrap_or_else(text, fired):
+    """R32: `RECV.unwrap_or_else(|| EXPR)`  ->  `match RECV { Some(uoe_N) => uoe_N, None => { EXPR } }`
+
+    Definition of `Option::unwrap_or_else` (std: "Returns the contained Some value or computes it from a closure"); the parameterless
+    closure `||` is what distinguishes it from `Result::unwrap_or_else(|e| ..)`, which is not rewritten (ExtractError).  EXPR is
+    evaluated only in the None case, as in the original; it stops being a closure, so it may use what the enclosing function may use
+    (here: the ghost token, which a closure must not capture mutably).  RECV must be a call expression.  Nothing is dropped."""
+    n = 0
+    while True:
+        msk = mask(text)
+        m0 = re.search(r'\.\s*unwrap_or_else\s*\(', msk)
+        if not m0:
+            break
+        m = re.match(r'\.\s*unwrap_or_else\s*\(\s*\|\s*\|', msk[m0.start():])
+        if not m:
+            raise ExtractError('R32: unsupported shape of .unwrap_or_else(..): %r' % norm_ws(text[m0.start():m0.start() + 60]))
+        n += 1
+        ob = m0.start() + msk[m0.start():].index('(')
+        cb = match_close(msk, ob)
+        expr = text[m0.start() + m.end():cb].strip()
+        rs = _call_receiver_start(msk, m0.start())
+        recv = text[rs:m0.start()].rstrip()
+        new = 'match %s { Some(uoe_%d) => uoe_%d, None => { %s } }' % (recv, n, n, expr)
+        fired.append('R32 %s.unwrap_or_else(|| ..) -> match' % norm_ws(recv)[:50])
+        text = text[:rs] + _pad(new, text[rs:cb + 1]) + text[cb + 1:]
+    return text
+
+
+def r17_cont_as_param(ctext, fired, cont, param):
+    """R17' (Lifted.cont_param): closure lifting for a callback that goes on AFTER calling its continuation.
+
+    `ctext` is the closure's block `{ B }`.  The one call `cont(ARGS)` in B is replaced by `{ lifted_args = Some((ARGS)); PARAM }`,
+    where PARAM is a parameter of the lifted function standing for whatever the continuation returns (universally quantified by
+    the contract), and the block becomes `{ let mut lifted_args = None; let lifted_out = { B }; Ok((lifted_args, lifted_out)) }`:
+    the lifted function returns what the closure handed to the continuation (None = it was not called) and the closure's own
+    result.  A `?` in B leaves the lifted function with `Err(e)` exactly as it leaves the closure.  The continuation must be
+    called exactly once textually and not inside a loop; a `return` in B is not supported (ExtractError -> exit 2)."""
+    msk = mask(ctext)
+    hits = list(re.finditer(r'(?<![\w.:])%s\s*\(' % re.escape(cont), msk))
+    if len(hits) != 1:
+        raise ExtractError('ANCHOR-LOST R17\': %d calls of the continuation %s in the closure' % (len(hits), cont))
+    if re.search(r'\breturn\b|\b(for|while|loop)\b', msk):
+        raise ExtractError('R17\': `return` or a loop in the closure is not supported')
+    m = hits[0]
+    ob = m.end() - 1
+    cb = match_close(msk, ob)
+    args = ctext[ob + 1:cb].strip().rstrip(',')
+    new = '{ lifted_args = Some((%s)); %s }' % (args, param)
+    ctext = ctext[:m.start()] + _pad(new, ctext[m.start():cb + 1]) + ctext[cb + 1:]
+    fired.append('R17\' continuation %s(args) -> records (args), yields the parameter `%s`; closure result returned next to the recorded args' % (cont, param))
+    return '{ let mut lifted_args = None; let lifted_out = ' + ctext + '; Ok((lifted_args, lifted_out)) }'
